@@ -273,6 +273,102 @@ func genReopenMany(g *vh.Gen) {
 	}
 }
 
+// genBurst: the size limit with a BURST of removals right before a delivery that fits only if all of them were
+// accounted for: mailbox 0 is filled with k small messages (k from 2 to 200), mailbox 1 with a few larger ones, up to
+// just under the limit; then mailbox 0 is purged (or its messages removed one by one) and at once a message is
+// delivered to mailbox 1 that is as large as what was freed. Nothing may be evicted for it. Whatever the store keeps
+// per removal on the side (a queue, a counter, a notice to another goroutine) has to be settled before the next
+// delivery is weighed.
+func genBurst(g *vh.Gen) {
+	gb := g.Side("c08-burst")
+	for i := 0; i < g.N(40, 1500); i++ {
+		maxkb := []int{4, 16, 64, 8}[i%4]
+		limit := maxkb * 1024
+		k := []int{2, 3, 5, 9, 17, 40, 100, 200}[gb.Intn(8)]
+		small := 130 + gb.Intn(40)
+		for k*small > limit*3/4 {
+			k /= 2
+		}
+		names := []string{"burst", "other", "third"}
+		date := 1600000000
+		var ops []string
+		add := func(mb, size int) {
+			date += 1 + gb.Intn(50)
+			ops = append(ops, "a"+vh.I(mb)+":"+vh.I(date)+":"+vh.I(size))
+		}
+		rest := limit - k*small
+		nbig := 1 + gb.Intn(3)
+		big := (rest - 200) / nbig
+		if big < 130 {
+			big, nbig = 130, 1
+		}
+		// the store's oldest messages live in mailbox 1 (so a wrong eviction takes one of THEM)
+		for j := 0; j < nbig; j++ {
+			add(1, big)
+		}
+		for j := 0; j < k; j++ {
+			add(0, small)
+		}
+		ops = append(ops, "l1")
+		if gb.Chance(0.6) {
+			ops = append(ops, "p0")
+		} else {
+			for j := 0; j < k; j++ {
+				ops = append(ops, "r0:k"+vh.I(j))
+			}
+		}
+		freed := k * small
+		add(gb.Intn(2)+1, freed-gb.Intn(60)) // fits exactly because the burst freed it
+		ops = append(ops, "l1", "l2", "l0", "v")
+		if gb.Chance(0.5) {
+			add(1, small)
+			ops = append(ops, "l1", "v")
+		}
+		sd.EmitHistory(gb, []string{"mem"}, "direct", 0, maxkb, names, joinOps(ops))
+	}
+	// the same inside ONE delivery: cap and size limit together, the store's oldest messages in mailbox 1, mailbox 0 at
+	// its cap and the store just under the limit; a delivery to mailbox 0 no larger than the message its cap evicts
+	// needs no size eviction at all - the bytes the cap eviction freed count before the new message is weighed
+	for i := 0; i < g.N(30, 600); i++ {
+		capN := 1 + gb.Intn(4)
+		maxkb := []int{4, 16, 2, 8}[i%4]
+		limit := maxkb * 1024
+		names := []string{"capped", "elder", "third"}
+		date := 1600000000
+		var ops []string
+		add := func(mb, size int) {
+			date += 1 + gb.Intn(50)
+			ops = append(ops, "a"+vh.I(mb)+":"+vh.I(date)+":"+vh.I(size))
+		}
+		nold := 1 + gb.Intn(3)
+		per := limit / (nold + capN + 1)
+		if per < 140 {
+			per = 140
+		}
+		for j := 0; j < nold; j++ {
+			add(1, per)
+		}
+		for j := 0; j < capN; j++ {
+			add(0, per)
+		}
+		// fill what is left (but never over the limit) in the third mailbox
+		if left := limit - (nold+capN)*per - 20; left > 140 {
+			add(2, left)
+		}
+		ops = append(ops, "l1", "l0")
+		// many such deliveries in a row (each evicts the oldest of mailbox 0 by the cap and is exactly as large; nothing
+		// else may ever go): whether the freed bytes are seen in time may depend on scheduling, so one trial proves little
+		for r := 0; r < 250+gb.Intn(100); r++ {
+			add(0, per)
+			if r%64 == 63 {
+				ops = append(ops, "l1")
+			}
+		}
+		ops = append(ops, "l1", "l0", "l2", "v")
+		sd.EmitHistory(gb, []string{"mem"}, "direct", capN, maxkb, names, joinOps(ops))
+	}
+}
+
 func genAll(g *vh.Gen) {
 	genReopenMany(g)
 	genConfig(g)
@@ -281,6 +377,7 @@ func genAll(g *vh.Gen) {
 	genBoth(g)
 	genWrap(g)
 	genReopen(g)
+	genBurst(g)
 }
 
 func main() { vh.Main(genAll, sd.Exec) }
